@@ -11,8 +11,8 @@ mkdir -p $S/repo && (cd /repo && git archive HEAD | tar -x -C $S/repo)
 demo=$(ls $D/demo*_test.go 2>/dev/null | head -1)
 demodir=""
 if [ -n "$demo" ]; then
-  demodir=$(grep -m1 -o 'copy[^*]*into[^`"'"'"']*[`"'"'"']\?\([A-Za-z0-9_./-]*\)' $demo | grep -o '[A-Za-z0-9_./-]*$' | tail -1)
-  [ -z "$demodir" ] && demodir=$(python3 -c "import json,sys;print(json.load(open('$D/meta.json')).get('demo_dir',''))" 2>/dev/null)
+  demodir=$(python3 -c "import json,sys;print(json.load(open('$D/meta.json')).get('demo_dir',''))" 2>/dev/null)
+  [ -z "$demodir" ] && demodir=$(grep -m1 -o 'copy[^*]*into[^`"'"'"']*[`"'"'"']\?\([A-Za-z0-9_./-]*\)' $demo | grep -o '[A-Za-z0-9_./-]*$' | tail -1)
 fi
 if [ -n "$DEMO_DIR" ]; then demodir=$DEMO_DIR; fi
 rundemo() {
